@@ -9,6 +9,7 @@ import (
 	"go/token"
 	"go/types"
 	"os"
+	"regexp"
 	"strconv"
 	"strings"
 
@@ -77,6 +78,7 @@ type Engine struct {
 	optRecs  map[*Obj]*StructV
 	cfgFile  *cfgFileEnv
 	prune    bool
+	summarize *regexp.Regexp
 	concrete []NondetVal
 	cpos     int
 }
